@@ -307,6 +307,72 @@ def run_import_case(layout, text):
     return not bad, {"layout": layout, "grammar_files": {k: v for k, v in files.items()}, "imports": imports, "input": text, "calls": got, "failures": bad[:3]}
 
 
+# ---- mixed family: an abstract rule whose alternatives are a common rule and base types / match rules ------------------
+MIXED_GRAMMAR = "Model: vals*=Val[','] ('one' one=Val)?; Val: Sub | FLOAT | STRING | Word; Sub: 'sub' name=ID; Word: /w\\d/;"
+MIXED_ELEMS = ["sub a", "1.5", '"x"', "w7"]
+MIXED_PROCS = [("Val",), ("Sub",), ("Val", "Sub"), ("Val", "Sub", "Word"), ("Val", "FLOAT")]
+
+
+def run_mixed_case(elems, procs, replace):
+    from textx import metamodel_from_str
+
+    mm = metamodel_from_str(MIXED_GRAMMAR)
+    log = []
+
+    def rec(rule):
+        def p(v):
+            log.append((rule, getattr(v, "name", float(v) if rule == "FLOAT" else v)))
+            if replace and rule == "Val":
+                return Marker(("Val", getattr(v, "name", v)))
+            if rule == "FLOAT":
+                return float(v)  # a processor of a match rule / base type is a converter: its result is the value
+            if rule == "Word":
+                return v
+        return p
+    mm.register_obj_processors({r: rec(r) for r in procs})
+    text = " , ".join(elems) + " one " + elems[0]
+    obs = {"grammar": MIXED_GRAMMAR, "input": text, "processors_on": list(procs), "Val_processor_replaces": replace}
+    m = mm.model_from_str(text)
+    values = {"sub a": "a", "1.5": 1.5, '"x"': "x", "w7": "w7"}
+    bad = []
+    if "Val" in procs:
+        want = [("Val", values[e]) for e in list(elems) + [elems[0]]]
+        got = [x for x in log if x[0] == "Val"]
+        if sorted(map(str, got)) != sorted(map(str, want)):
+            bad.append(("calls of the abstract rule's processor", want, got))
+        if replace:
+            cur = [describe(v) for v in list(m.vals) + [m.one]]
+            if cur != [("marker", w) for w in want]:
+                bad.append(("replacement by the abstract rule's processor", cur))
+    if "Sub" in procs:
+        n = sum(1 for e in list(elems) + [elems[0]] if e == "sub a")
+        if sum(1 for x in log if x[0] == "Sub") != n:
+            bad.append(("calls of Sub's processor", n, [x for x in log if x[0] == "Sub"]))
+        if "Val" in procs:
+            seq = [x for x in log if x[1] == "a"]
+            if any(seq[i][0] == "Val" and seq[i + 1][0] == "Sub" and i % 2 == 0 for i in range(len(seq) - 1)):
+                bad.append(("abstract rule's processor before the object's own", seq))
+    obs["log"] = [list(map(str, x)) for x in log]
+    obs["failures"] = bad[:3]
+    return not bad, obs
+
+
+def work_mixed(arg):
+    u = Unit()
+    for elems, procs, replace in arg:
+        try:
+            with watchdog(20):
+                ok, obs = run_mixed_case(elems, procs, replace)
+        except Exception as e:
+            ok, obs = False, {"input": " , ".join(elems), "processors_on": list(procs), "failures": [("exception", "%s: %s" % (type(e).__name__, e))]}
+        u.case(["mixed", list(elems), list(procs), replace], nontrivial=True, sample=obs if ok else None)
+        u.count("mixed abstract rule family")
+        if not ok:
+            u.fail(["mixed", list(elems), list(procs), replace], {"mixed": [list(elems), list(procs), replace]}, sig="mixed %s %s" % (obs["failures"][0][0], procs),
+                   what=str(obs)[:500])
+    return u
+
+
 def work_import(arg):
     u = Unit()
     for layout, text in arg:
@@ -332,6 +398,10 @@ def run(ctx):
         units += [(fs[i:i + 3], wr, True) for i in range(0, len(fs), 3)]
     ctx.pmap(work, units)
     ctx.pmap(work_import, [[(l, t)] for l in GI_LAYOUTS for t in GI_INPUTS])
+    import itertools
+
+    mixed = [(el, pr, rp) for n in (1, 2) for el in itertools.product(MIXED_ELEMS, repeat=n) for pr in MIXED_PROCS for rp in (False, True)]
+    ctx.pmap(work_mixed, [mixed[i:i + 20] for i in range(0, len(mixed), 20)])
     return {
         "rule": "case = (forest, optional reference, user class on/off, replacement variant of %s, one file or split into lib.m + main.m at every "
                 "top-level position); plan (objects, all references?) = %s; non-trivial = more than one object; plus the grammar-import family: the rules "
@@ -343,4 +413,6 @@ def run(ctx):
 def replay(p):
     if "gi" in p:
         return run_import_case(*p["gi"])
+    if "mixed" in p:
+        return run_mixed_case(tuple(p["mixed"][0]), tuple(p["mixed"][1]), p["mixed"][2])
     return run_case(tup(p["forest"]), tup(p["ref"]) if p["ref"] else None, p["user"], p["variant"], p["two"])
